@@ -752,3 +752,93 @@ Proof.
   intros R1 R2. split; [|intros x; apply bubble_app].
   rewrite resolve_app, R1. cbn [bind fst snd]. rewrite resolve_chain, R2. reflexivity.
 Qed.
+
+(** ** every group-level result has one element per group *)
+
+Lemma bind_ok_inv {A B} (r : res A) (f : A -> res B) y :
+  bind r f = Ok y -> exists x, r = Ok x /\ f x = Ok y.
+Proof. destruct r; cbn; [eauto|discriminate]. Qed.
+
+Lemma mask_assign_loop_length {A} (result : list A) mask vals :
+  length (mask_assign_loop result mask vals) = length result.
+Proof.
+  revert mask vals; induction result as [|r result IH]; intros [|m mask] vals; cbn; auto.
+  destruct m; [destruct vals|]; cbn; now rewrite IH.
+Qed.
+
+Lemma mask_assign_length {A} (result : list A) mask vals out :
+  mask_assign result mask vals = Ok out -> length out = length result.
+Proof.
+  unfold mask_assign. destruct (negb _); [discriminate|].
+  destruct (length vals =? count_true mask).
+  - intros [= <-]. apply mask_assign_loop_length.
+  - destruct vals as [|v [|? ?]]; try discriminate. intros [= <-]. apply mask_assign_loop_length.
+Qed.
+
+Lemma value_nth_person_length {A} mm p n (array : list A) d out :
+  value_nth_person_with mm p n array d = Ok out -> length out = g_count p.
+Proof.
+  unfold value_nth_person_with. intros H.
+  repeat (apply bind_ok_inv in H as (? & _ & H)).
+  apply mask_assign_length in H. now rewrite full_length in H.
+Qed.
+
+Lemma value_from_person_length {A} mm p (array : list A) r d out :
+  value_from_person_with mm p array r d = Ok out -> length out = g_count p.
+Proof.
+  unfold value_from_person_with. destruct (role_max (g_entity p) r) as [[|[|?]]|]; try discriminate.
+  intros H. repeat (apply bind_ok_inv in H as (? & _ & H)).
+  apply mask_assign_length in H. now rewrite full_length in H.
+Qed.
+
+Lemma empty_positions_err p : npersons p = 0 -> members_position p = Err EValue.
+Proof.
+  unfold npersons, members_position. destruct (g_ids p); [reflexivity|discriminate].
+Qed.
+
+Lemma reduce_empty_err {A} mm p (array : list A) f neutral role :
+  npersons p = 0 -> exists e, reduce_with mm p array f neutral role = Err e.
+Proof.
+  intros H. unfold reduce_with. destruct (check_size (npersons p) array); cbn [bind]; [|eauto].
+  rewrite (empty_positions_err p H). cbn. eauto.
+Qed.
+
+Lemma lengths_ok p mm array role :
+  wf_pop p -> sorting_perm_nat (g_ids p) mm -> length array = npersons p ->
+  (forall out, sum p array role = Ok out -> length out = g_count p) /\
+  (forall out, any p array role = Ok out -> length out = g_count p) /\
+  (forall out, nb_persons p role = Ok out -> length out = g_count p) /\
+  (forall out, all_with mm p array role = Ok out -> length out = g_count p) /\
+  (forall out, max_with mm p array role = Ok out -> length out = g_count p) /\
+  (forall out, min_with mm p array role = Ok out -> length out = g_count p) /\
+  (forall n d out, value_nth_person_with mm p n array d = Ok out -> length out = g_count p) /\
+  (forall out, value_from_first_person_with mm p array = Ok out -> length out = g_count p) /\
+  (forall r d out, value_from_person_with mm p array r d = Ok out -> length out = g_count p).
+Proof.
+  intros W MM Hl.
+  assert (Hmap : forall {B} (F : nat -> B), length (map F (seq 0 (g_count p))) = g_count p)
+    by (intros; now rewrite map_length, seq_length).
+  assert (Hred : forall {B} (arr : list B) f neutral out,
+            length arr = npersons p -> (forall x, f x neutral = x) ->
+            reduce_with mm p arr f neutral role = Ok out -> length out = g_count p).
+  { intros B arr f neutral out Ha Hneu H.
+    destruct (Nat.eq_dec (npersons p) 0) as [Z|NZ].
+    - destruct (reduce_empty_err mm p arr f neutral role Z) as [e E]. congruence.
+    - rewrite reduce_ok in H; try assumption; [|lia]. injection H as <-. apply Hmap. }
+  repeat split.
+  - intros out H. rewrite sum_ok in H by assumption. injection H as <-. apply Hmap.
+  - intros out H. unfold any in H. rewrite sum_ok in H by assumption. cbn in H. injection H as <-.
+    rewrite map_length. apply Hmap.
+  - intros out H. rewrite nb_persons_ok in H by assumption. injection H as <-. apply Hmap.
+  - intros out. apply Hred; [now rewrite map_length|apply andb_true_r].
+  - intros out. apply Hred; [now rewrite map_length|apply ext_max_neutral].
+  - intros out. apply Hred; [now rewrite map_length|apply ext_min_neutral].
+  - intros n d out. apply value_nth_person_length.
+  - intros out. apply value_nth_person_length.
+  - intros r d out. apply value_from_person_length.
+Qed.
+
+(** The un-suffixed functions (the ones the correspondence runs) are the instances at the
+    stable argsort, which is one of the sorting permutations. *)
+Lemma ordered_members_map_sorting p : sorting_perm_nat (g_ids p) (ordered_members_map p).
+Proof. apply argsort_nat_sorting. Qed.
